@@ -7,12 +7,12 @@ ObjSeq <- ObjSeqDef
 FmtSel = {1, 2}
 RndSel = {1, 2}
 OvfSel = {1, 2}
-GridSel = {1, 2, 4, 5}
+GridSel = {2, 4, 6}
 Acts <- ActsC04
-Depth = 99
+Depth = 8
 EXT = 4
 INIT Init
 NEXT Next
 CHECK_DEADLOCK FALSE
 VIEW View
-INVARIANT EmitHist
+INVARIANT EmitFull
